@@ -16,7 +16,7 @@ ASSUMPTIONS = [
 ]
 CASES = {"quick": 480, "thorough": 20000}
 MIN_CASES = {"quick": 60, "thorough": 1500}
-REQUIRED_COUNTERS = ["laid_out_again_in_a_smaller_die", "trials_judged_by_contract", "layouts_judged", "movable_discs_checked", "fixed_modules_checked", "fixed_terminals_checked", "hard_modules_checked", "layouts_after_earlier_queries", "nets_compared_with_document"]
+REQUIRED_COUNTERS = ["soft_modules_with_per_region_areas", "laid_out_again_in_a_smaller_die", "trials_judged_by_contract", "layouts_judged", "movable_discs_checked", "fixed_modules_checked", "fixed_terminals_checked", "hard_modules_checked", "layouts_after_earlier_queries", "nets_compared_with_document"]
 REQUIRED_CLASSES = ["fixed0", "fixed1"]
 SOFT_DEADLINE = {"quick": 200, "thorough": 3300}
 
@@ -75,6 +75,10 @@ def generate(rng, tier, i):
         area = math.pi * r * r * 0.999
         if rng.random() < 0.65:
             mods[f"S{k}"] = {"area": float(f"{area:.6g}")}
+            if rng.random() < 0.25:
+                a_ = mods[f"S{k}"]["area"]
+                f_ = rng.choice([0.2, 0.5, 0.75])
+                mods[f"S{k}"]["area"] = {"_": float(f"{a_ * f_:.6g}"), rng.choice(["DSP", "BRAM", "LUT"]): float(f"{a_ * (1 - f_):.6g}")}
             if rng.random() < 0.3:
                 mods[f"S{k}"]["center"] = [float(f"{rng.uniform(0, W):.4g}"), float(f"{rng.uniform(0, H):.4g}")]
         else:
@@ -129,7 +133,7 @@ def generate(rng, tier, i):
                 m["center"] = [float(f"{rng.uniform(0, W):.4g}"), float(f"{rng.uniform(0, H):.4g}")]
     again = None
     if n > 0 and not any(m.get("fixed") for m in mods.values()) and rng.random() < 0.85:
-        rmax = max(math.sqrt((m["area"] if "area" in m else sum(r[2] * r[3] for r in m["rectangles"])) / math.pi) for m in mods.values())
+        rmax = max(math.sqrt(((sum(m["area"].values()) if isinstance(m["area"], dict) else m["area"]) if "area" in m else sum(r[2] * r[3] for r in m["rectangles"])) / math.pi) for m in mods.values())
         f, g = rng.choice([[0.5, 1.0], [1.0, 0.5], [0.7, 0.8], [0.6, 0.6], [1.0, 1.0]])
         if min(W * f, H * g) >= 2.3 * rmax:
             again = [f, g]
@@ -179,6 +183,20 @@ def check(case, ctx):
         # a legitimate earlier use of the netlist (must not influence the placement)
         ctx.call(lambda: (sp.num_rectangles, [m.area() for m in sp.modules], sp.num_edges))
         ctx.count("layouts_after_earlier_queries")
+    doc_area = {}
+    for name_, mm in case["netlist"]["Modules"].items():
+        if "area" in mm:
+            doc_area[name_] = float(sum(mm["area"].values())) if isinstance(mm["area"], dict) else float(mm["area"])
+            if isinstance(mm["area"], dict):
+                ctx.count("soft_modules_with_per_region_areas")
+        elif "rectangles" in mm:
+            rs_ = mm["rectangles"] if not isinstance(mm["rectangles"][0], (int, float)) else [mm["rectangles"]]
+            doc_area[name_] = float(sum(r[2] * r[3] for r in rs_))
+        else:
+            doc_area[name_] = 0.0
+    for m in sp.modules:
+        if abs(m.area() - doc_area[m.name]) > 1e-9 * max(doc_area[m.name], 1e-300):
+            ctx.violation("area_differs_from_document", f"module {m.name}: the document gives area {doc_area[m.name]}, the loaded module reports {m.area()}")
     dies = [(W, H, "")]
     if case.get("again"):
         dies.append((W * case["again"][0], H * case["again"][1], "second layout of the same object, now in a smaller die: "))
@@ -217,7 +235,7 @@ def check(case, ctx):
             ctx.violation("nets_changed", f"nets or module list changed: document {want_nets}, after placement {after['nets']}")
         sx, sy = 1e-9 * W, 1e-9 * H
         for m, b in zip(sp.modules, before["modules"]):
-            rad = math.sqrt(m.area() / math.pi)
+            rad = math.sqrt(doc_area[m.name] / math.pi)          # the area the DOCUMENT gives the module, not what the object reports
             if m.is_fixed:
                 ctx.count("fixed_modules_checked")
                 if m.is_terminal:
